@@ -512,6 +512,7 @@ class DataPack:
         prefix: str = "",
         precommands: list[str] | None = None,
         postcommands: list[str] | None = None,
+        postcommands_after_return: bool = False,
     ) -> str:
         """
         Wrap custom commands around user's commands
@@ -522,6 +523,7 @@ class DataPack:
         :param count: Name of the function (usually as count)
         :param precommands: Commands before user's commands
         :param postcommands: Commands after user's commands
+        :param postcommands_after_return: Whether postcommands must run even if user's commands `return`
         :return: Minecraft function call string
         """
         if precommands is None:
@@ -529,9 +531,23 @@ class DataPack:
         if postcommands is None:
             postcommands = []
 
+        body = self.parse_function_token(token, tokenizer, prefix)
+        if postcommands_after_return and any(
+            word in {"return", "$return"}
+            for command in body
+            for word in re.split("[ \n]", command)
+        ):
+            # `return` leaves the function it is written in: the user's commands
+            # get a function of their own, so that the postcommands still run
+            body = [
+                self.add_private_function(
+                    name, NEW_LINE.join(body), force_create_func=True
+                )
+            ]
+
         commands = [
             *precommands,
-            *self.parse_function_token(token, tokenizer, prefix),
+            *body,
             *postcommands,
         ]
         if count is None:
